@@ -603,7 +603,7 @@ func c19RunJSON(o *out, id int, c c19case, dir string) error {
 	docs, _, ierr := drainIter(ftdc.ReadStructuredMetrics(rctx, bytes.NewReader(res.out)), false)
 	rcancel()
 	o.printf("R %d 0 %d %d %s\n", errFlag(res.err), len(docs), errFlag(ierr), strings.Join(docs, " "))
-	o.printf("O %s\n", hex.EncodeToString(normalizeStream(res.out)))
+	o.printf("O %s\n", hex.EncodeToString(normalizeEncoded(res.out)))
 	return nil
 }
 
